@@ -15,6 +15,8 @@
  * Part E (degenerate vnadata objects): 12 routes to a boundary shape x 11
  * types x 22 operations (saves to every file family, conversions, setters,
  * resize, load).
+ * Part F (fresh calibration objects): 6 early states x 8 types x 3 shapes x
+ * 15 operations.
  * Oracle: process survives, ASan/UBSan silent, call returns, invalid calls
  * return the documented failure value, after the free functions the
  * allocation accounting is back at the baseline.  No numeric oracle.
@@ -803,7 +805,251 @@ static void run_ve(long idx, vf_result *r)
     vf_exec_end(r, mark);
 }
 
-static long n_sweep, n_conv, n_hist, n_vpd, n_ve;
+/* ---- Part F: fresh calibration objects x every operation -------------- */
+/*
+ * A vnacal_t and a vnacal_new_t are brought to one of the early states of
+ * their life (routes below) for each of the 8 types and 3 shapes, then one
+ * operation of the list is applied; the objects are queried and freed.
+ * Survival, sanitizers and the allocation accounting only.
+ */
+enum { VF_CREATE, VF_ALLOC_0F, VF_ALLOC_NOFV, VF_ALLOC_FV, VF_ONE_STD,
+    VF_ONE_STD_SOLVED_FAIL, VF_NROUTE };
+static const char *const vfr_name[VF_NROUTE] = {
+    "vnacal_create only", "new_alloc with 0 frequencies",
+    "new_alloc, no frequency vector", "new_alloc + frequency vector",
+    "one standard added", "one standard added and a failed solve",
+};
+static const vnacal_type_t vfr_types[8] = { VNACAL_T8, VNACAL_U8,
+    VNACAL_TE10, VNACAL_UE10, VNACAL_T16, VNACAL_U16, VNACAL_UE14,
+    VNACAL_E12 };
+static const int vfr_dims[3][2] = { { 1, 1 }, { 2, 2 }, { 1, 2 } };
+enum { FO_SOLVE, FO_ADDCAL, FO_SAVE_LOAD, FO_APPLY0, FO_GETTERS,
+    FO_PROPS, FO_M_ERROR, FO_M_ERROR_GRID, FO_SET_Z0, FO_SETTINGS,
+    FO_ADD_EACH, FO_ADD_AB_EACH, FO_PARAMS, FO_DEL_PREDEF, FO_SOLVE_TWICE,
+    FO_FREE_FIRST, FO_NOP };
+static const char *const vfo_name[FO_NOP] = {
+    "solve", "add_calibration", "save + load", "apply calibration 0",
+    "every vnacal getter at ci -1..1", "properties at ci -1 and 0",
+    "set_m_error on the calibration grid", "set_m_error on its own grid",
+    "set_z0", "tolerances, limits, pvalue", "every add_*_m entry point",
+    "every add_* (a, b) entry point", "every parameter kind, evaluated",
+    "delete predefined parameters", "solve twice",
+    "vnacal_free before vnacal_new_free is not allowed: new_free first",
+};
+
+static void vfr_query(vnacal_t *vcp)
+{
+    volatile double sink = 0;
+    for (int ci = -1; ci <= 1; ++ci) {
+	(void)vnacal_get_name(vcp, ci);
+	sink += vnacal_get_type(vcp, ci);
+	sink += vnacal_get_rows(vcp, ci);
+	sink += vnacal_get_columns(vcp, ci);
+	sink += vnacal_get_frequencies(vcp, ci);
+	sink += vnacal_get_fmin(vcp, ci);
+	sink += vnacal_get_fmax(vcp, ci);
+	(void)vnacal_get_frequency_vector(vcp, ci);
+	sink += creal(vnacal_get_z0(vcp, ci));
+	sink += vnacal_property_count(vcp, ci, ".");
+	(void)vnacal_property_keys(vcp, ci, ".");
+    }
+    sink += vnacal_get_calibration_end(vcp);
+    (void)vnacal_get_filename(vcp);
+    (void)vnacal_find_calibration(vcp, "nothing");
+    (void)sink;
+}
+
+static long vfr_count(void) { return (long)VF_NROUTE * 8 * 3; }
+
+static void run_vfr(long idx, vf_result *r)
+{
+    fx_t *F = &c3_F;
+    static vf_errlog lg;
+    int di = (int)(idx % 3); idx /= 3;
+    int ti = (int)(idx % 8); idx /= 8;
+    int route = (int)idx;
+    vnacal_type_t type = vfr_types[ti];
+    int rows = vfr_dims[di][0], cols = vfr_dims[di][1];
+    const char *err;
+    unsigned long mark;
+
+    if (!(type == VNACAL_T8 || type == VNACAL_TE10 || type == VNACAL_T16)) {
+	int x = rows; rows = cols; cols = x;
+    }
+    vf_desc(r, "fresh calibration objects: %s, %s %dx%d, then each of %d "
+	    "operations on a fresh copy; queries; free", vfr_name[route],
+	    vnacal_type_to_name(type), rows, cols, (int)FO_NOP);
+    mark = vf_exec_begin();
+    if ((err = fx_build(F)) != NULL) {
+	vf_fail(r, "fixture", "building the fixture failed at: %s", err);
+	fx_teardown(F);
+	vf_exec_end(r, mark);
+	return;
+    }
+    for (int op = 0; op < FO_NOP; ++op) {
+	vnacal_t *vcp, *vcp2 = NULL;
+	vnacal_new_t *vnp = NULL;
+	vnadata_t *vdo = NULL;
+	char path[760];
+	int s4[4] = { VNACAL_MATCH, VNACAL_OPEN, VNACAL_OPEN, VNACAL_SHORT };
+	const double sig1[3] = { 1e-3, 2e-3, 3e-3 };
+	const double fg[2] = { F->f3[0] * 0.9, F->f3[2] * 1.1 };
+
+	vf_errlog_reset(&lg);
+	vcp = vnacal_create((vnaerr_error_fn_t *)vf_errfn, &lg);
+	if (vcp == NULL)
+	    continue;
+	if (route >= VF_ALLOC_0F)
+	    vnp = vnacal_new_alloc(vcp, type, rows, cols,
+		    route == VF_ALLOC_0F ? 0 : 3);
+	if (vnp != NULL && route >= VF_ALLOC_FV)
+	    (void)vnacal_new_set_frequency_vector(vnp, F->f3);
+	if (vnp != NULL && route >= VF_ONE_STD)
+	    (void)vnacal_new_add_single_reflect_m(vnp, F->mp, rows, cols,
+		    VNACAL_SHORT, 1);
+	if (vnp != NULL && route >= VF_ONE_STD_SOLVED_FAIL)
+	    (void)vnacal_new_solve(vnp);
+	if (vf_verbose)
+	    vf_note("%s", vfo_name[op]);
+	switch (op) {
+	case FO_SOLVE:
+	    if (vnp) (void)vnacal_new_solve(vnp);
+	    break;
+	case FO_SOLVE_TWICE:
+	    if (vnp) { (void)vnacal_new_solve(vnp); (void)vnacal_new_solve(vnp); }
+	    break;
+	case FO_ADDCAL:
+	    if (vnp) (void)vnacal_add_calibration(vcp, "fresh", vnp);
+	    break;
+	case FO_SAVE_LOAD:
+	    snprintf(path, sizeof(path), "%s", vf_tmp("vfr.vnacal"));
+	    if (vnacal_save(vcp, path) == 0) {
+		vcp2 = vnacal_load(path, (vnaerr_error_fn_t *)vf_errfn, &lg);
+		if (vcp2 != NULL)
+		    vfr_query(vcp2);
+	    }
+	    break;
+	case FO_APPLY0:
+	    vdo = vnadata_alloc((vnaerr_error_fn_t *)vf_errfn, &lg);
+	    if (vdo != NULL)
+		(void)vnacal_apply_m(vcp, 0, F->f3, 3, F->mp, rows, cols, vdo);
+	    break;
+	case FO_GETTERS:
+	    break;
+	case FO_PROPS:
+	    (void)vnacal_property_set(vcp, -1, "a.b[1]=c");
+	    (void)vnacal_property_set(vcp, 0, "a=b");
+	    (void)vnacal_property_get(vcp, -1, "a.b[1]");
+	    (void)vnacal_property_delete(vcp, -1, "a.b[0]");
+	    (void)vnacal_property_delete(vcp, -1, ".");
+	    break;
+	case FO_M_ERROR:
+	    if (vnp) {
+		(void)vnacal_new_set_m_error(vnp, NULL, 1, sig1, NULL);
+		(void)vnacal_new_set_m_error(vnp, NULL, 3, sig1, sig1);
+		(void)vnacal_new_solve(vnp);
+	    }
+	    break;
+	case FO_M_ERROR_GRID:
+	    if (vnp) {
+		(void)vnacal_new_set_m_error(vnp, fg, 2, sig1, sig1);
+		(void)vnacal_new_solve(vnp);
+		(void)vnacal_new_set_m_error(vnp, NULL, 0, NULL, NULL);
+	    }
+	    break;
+	case FO_SET_Z0:
+	    if (vnp) (void)vnacal_new_set_z0(vnp, 75.0 - 2.0 * I);
+	    break;
+	case FO_SETTINGS:
+	    if (vnp) {
+		(void)vnacal_new_set_et_tolerance(vnp, 1e-9);
+		(void)vnacal_new_set_p_tolerance(vnp, 1e-3);
+		(void)vnacal_new_set_iteration_limit(vnp, 1);
+		(void)vnacal_new_set_pvalue_limit(vnp, 0.5);
+		(void)vnacal_new_solve(vnp);
+	    }
+	    break;
+	case FO_ADD_EACH:
+	    if (vnp) {
+		(void)vnacal_new_add_single_reflect_m(vnp, F->mp, rows, cols,
+			VNACAL_OPEN, 1);
+		(void)vnacal_new_add_single_reflect_m(vnp, F->mp, rows, cols,
+			VNACAL_MATCH, 2);
+		(void)vnacal_new_add_double_reflect_m(vnp, F->mp, rows, cols,
+			VNACAL_OPEN, VNACAL_SHORT, 2, 1);
+		(void)vnacal_new_add_through_m(vnp, F->mp, rows, cols, 1, 2);
+		(void)vnacal_new_add_line_m(vnp, F->mp, rows, cols, s4, 2, 1);
+		(void)vnacal_new_add_mapped_matrix_m(vnp, F->mp, rows, cols,
+			s4, 2, 2, NULL);
+		(void)vnacal_new_add_mapped_matrix_m(vnp, F->mp, rows, cols,
+			s4, 1, 1, F->pm11);
+		(void)vnacal_new_solve(vnp);
+	    }
+	    break;
+	case FO_ADD_AB_EACH:
+	    if (vnp) {
+		(void)vnacal_new_add_single_reflect(vnp, F->ap, cols, cols,
+			F->mp, rows, cols, VNACAL_OPEN, 1);
+		(void)vnacal_new_add_single_reflect(vnp, F->ap, 1, cols,
+			F->mp, rows, cols, VNACAL_MATCH, 1);
+		(void)vnacal_new_add_double_reflect(vnp, F->ap, cols, cols,
+			F->mp, rows, cols, VNACAL_OPEN, VNACAL_SHORT, 1, 2);
+		(void)vnacal_new_add_through(vnp, F->ap, 1, cols, F->mp, rows,
+			cols, 1, 2);
+		(void)vnacal_new_add_line(vnp, F->ap, cols, cols, F->mp, rows,
+			cols, s4, 1, 2);
+		(void)vnacal_new_add_mapped_matrix(vnp, F->ap, cols, cols,
+			F->mp, rows, cols, s4, 2, 2, NULL);
+		(void)vnacal_new_solve(vnp);
+	    }
+	    break;
+	case FO_PARAMS: {
+	    int ps = vnacal_make_scalar_parameter(vcp, 0.3 - 0.2 * I);
+	    int pv = vnacal_make_vector_parameter(vcp, F->f3, 1, F->vec3);
+	    int pu = vnacal_make_unknown_parameter(vcp, pv);
+	    int pc = vnacal_make_correlated_parameter(vcp, ps, F->f3, 1,
+		    sig1);
+	    int pp[4] = { ps, pv, pu, pc };
+	    for (int i = 0; i < 4; ++i)
+		(void)vnacal_get_parameter_value(vcp, pp[i], F->f3[0]);
+	    if (vnp) {
+		(void)vnacal_new_add_single_reflect_m(vnp, F->mp, rows, cols,
+			pu, 1);
+		(void)vnacal_new_add_single_reflect_m(vnp, F->mp, rows, cols,
+			pc, 1);
+		(void)vnacal_new_solve(vnp);
+	    }
+	    for (int i = 3; i >= 0; --i)
+		(void)vnacal_delete_parameter(vcp, pp[i]);
+	    break;
+	}
+	case FO_DEL_PREDEF:
+	    (void)vnacal_delete_parameter(vcp, VNACAL_MATCH);
+	    (void)vnacal_delete_parameter(vcp, VNACAL_OPEN);
+	    (void)vnacal_delete_parameter(vcp, VNACAL_SHORT);
+	    (void)vnacal_delete_parameter(vcp, VNACAL_ZERO);
+	    (void)vnacal_get_parameter_value(vcp, VNACAL_ZERO, 1e9);
+	    break;
+	default:
+	    break;
+	}
+	++r->transitions;
+	vfr_query(vcp);
+	if (vdo != NULL)
+	    vnadata_free(vdo);
+	if (vnp != NULL)
+	    vnacal_new_free(vnp);
+	if (vcp2 != NULL)
+	    vnacal_free(vcp2);
+	vnacal_free(vcp);
+    }
+    fx_teardown(F);
+    r->nontrivial = 1;
+    vf_outcome(r, "fresh calibration objects survived");
+    vf_exec_end(r, mark);
+}
+
+static long n_sweep, n_conv, n_hist, n_vpd, n_ve, n_vfr;
 
 static long count(int tier)
 {
@@ -812,7 +1058,8 @@ static long count(int tier)
     n_hist = hist_count(tier);
     n_vpd = vpd_count(tier);
     n_ve = ve_count();
-    return n_sweep + n_conv + n_hist + n_vpd + n_ve;
+    n_vfr = vfr_count();
+    return n_sweep + n_conv + n_hist + n_vpd + n_ve + n_vfr;
 }
 
 static void init(int tier)
@@ -830,8 +1077,10 @@ static void run(int tier, long idx, vf_result *r)
 	run_hist(tier, idx - n_sweep - n_conv, r);
     else if (idx < n_sweep + n_conv + n_hist + n_vpd)
 	run_vpd(tier, idx - n_sweep - n_conv - n_hist, r);
-    else
+    else if (idx < n_sweep + n_conv + n_hist + n_vpd + n_ve)
 	run_ve(idx - n_sweep - n_conv - n_hist - n_vpd, r);
+    else
+	run_vfr(idx - n_sweep - n_conv - n_hist - n_vpd - n_ve, r);
 }
 
 vf_driver vf_drv = {
